@@ -644,13 +644,12 @@ func (r *proxyStreamReceiver) Run(
 	r.ackChan = make(chan RoutedAck, 100)
 	if r.shardManager != nil {
 		r.shardManager.SetLocalAckChan(r.sourceShardID, r.ackChan)
-		r.shardManager.SetLocalReceiverCancelFunc(r.sourceShardID, cancel)
-		// Register receiver for watermark propagation to late-registering shards
-		r.shardManager.RegisterActiveReceiver(r.sourceShardID, r)
+		// Register the cancel function and the receiver (for watermark propagation to late-registering shards) together
+		r.shardManager.RegisterLocalReceiver(r.sourceShardID, r, cancel)
 		defer func() {
+			// Only remove what is still ours: a newer receiver for this shard may already have replaced us
 			r.shardManager.RemoveLocalAckChan(r.sourceShardID, r.ackChan)
-			r.shardManager.RemoveLocalReceiverCancelFunc(r.sourceShardID)
-			r.shardManager.UnregisterActiveReceiver(r.sourceShardID)
+			r.shardManager.UnregisterLocalReceiver(r.sourceShardID, r)
 		}()
 	}
 
